@@ -492,6 +492,12 @@ impl PooledBuffer {
     /// Create a new pooled buffer of the specified size
     pub fn new(size: usize) -> Result<Self> {
         let pool = GLOBAL_POOLS.get_pool_for_size(size).clone();
+        if size > pool.config().chunk_size {
+            // Larger than the largest pooled chunk: the buffer would extend past its chunk
+            return Err(ZiporaError::invalid_data(
+                "buffer size exceeds the largest pool chunk size",
+            ));
+        }
         let chunk = pool.allocate()?;
 
         Ok(Self {
